@@ -442,6 +442,18 @@ fn corrupt_files(run: &Run, pool: &Pool) {
     for (i, f) in ["", "[]", "{}", "null", "{\"peers\":[]}", "{\"nodes\":[],\"save_path\":\"x\"}", "\u{feff}{}"].iter().enumerate() {
         cases.push((format!("foreign shape {i}"), f.as_bytes().to_vec()));
     }
+    // foreign *text*: a file of 700 bytes that is valid UTF-8 and no cache file, with one multi-byte character starting at
+    // every byte offset 0..=600 (code that quotes or cuts the unparsable content by byte position meets the inside of a
+    // character for one of them)
+    for k in 0..=600usize {
+        for ch in ["\u{e9}", "\u{20ac}"] {
+            let mut t = "x".repeat(k);
+            t.push_str(ch);
+            t.push_str(&"y".repeat(700 - k));
+            let name = if matches!(k, 254..=257 | 510..=513) { format!("foreign shape text, {}-byte character at offset {k}", ch.len()) } else { format!("foreign text, {}-byte character at offset {k}", ch.len()) };
+            cases.push((name, t.into_bytes()));
+        }
+    }
     // well-formed files of the right shape whose numbers are not what this code would have written: every number token
     // of the seed file replaced in turn by boundary values (counters, seconds and nanoseconds of a timestamp)
     {
